@@ -195,6 +195,18 @@ pub fn plan(prop: &str, tier: Tier, cfg_b: bool) -> Option<Plan> {
     })
 }
 
+/// Functions of the user graph without predecessors (forward) / successors (reverse): a superset
+/// of the functions a run can start with.
+fn sub_preds_roots(gs: &GraphSpec, reverse: bool) -> Vec<u32> {
+    let mut has = vec![false; gs.n];
+    for &(a, b, _) in &gs.calls {
+        if a != b {
+            has[if reverse { a } else { b } as usize] = true;
+        }
+    }
+    (0..gs.n as u32).filter(|&i| !has[i as usize]).collect()
+}
+
 /// Run-spec templates enumerated exhaustively for a property on a graph with n functions.
 pub fn exh_runs(prop: &str, n: usize, cfg_b: bool, tier: Tier) -> Vec<RunSpec> {
     let mut out = Vec::new();
@@ -603,13 +615,29 @@ pub fn run(opts: &Opts, cfg_b: bool) -> Option<Stats> {
     let cases = ((plan.random_cases as f64) * opts.scale) as u64;
     let seed = opts.seed;
     let plan_ref = &plan;
+    let q_tier = opts.tier == Tier::Quick;
+    let huge_per_run: u64 = if q_tier { 3 } else { 9 };
     let rnd = par_for(opts.jobs, cases, 64, Some(deadline), |st: &mut Stats, i: u64, slot: &Slot| {
         let mut rng = Rng::new(mix(seed, i));
-        let wide = plan_ref.wide_every > 0 && i % plan_ref.wide_every == 0;
+        // "huge" graphs: a handful per run, beyond the next powers of two above the wide sizes
+        // (4096, and in the thorough tier 8192 / 16384): internal buffers, batches and caps sized
+        // by a round constant instead of by the graph show up here
+        let huge = plan_ref.wide_every > 0 && cases >= 64 && i % (cases / huge_per_run).max(1) == 23 % (cases / huge_per_run).max(1);
+        let wide = huge || (plan_ref.wide_every > 0 && i % plan_ref.wide_every == 0);
         // "medium" graphs: more functions ready at once than any small batch constant (8, 16, 32)
         let mid = !wide && i % 40 == 13;
+        let many_types = !wide && !mid && i % 1500 == 750;
         let gs = if wide {
-            let n = *rng.pick(&plan_ref.wide_sizes);
+            let n = if huge {
+                st.count("huge_graph_runs");
+                match (q_tier, rng.below(4)) {
+                    (true, _) | (false, 0) => rng.range(4100, 4700),
+                    (false, 1) | (false, 2) => rng.range(8200, 9000),
+                    (false, _) => rng.range(16400, 17000),
+                }
+            } else {
+                *rng.pick(&plan_ref.wide_sizes)
+            };
             if prop == "C02" && rng.chance(3, 4) {
                 // dependency counts: a function with n-1 direct dependencies / dependents
                 let fam = if rng.chance(1, 2) { Family::FanIn } else { Family::FanOut };
@@ -617,9 +645,39 @@ pub fn run(opts: &Opts, cfg_b: bool) -> Option<Stats> {
                 gp.hostile_calls = false;
                 gp.types = 0;
                 gen::random_graph_of(&mut rng, fam, n, &gp)
+            } else if huge {
+                // build() is cubic in the number of conflicting functions: a huge graph declares
+                // accesses on a handful of functions only
+                let fam = [Family::FanOut, Family::Isolated, Family::FanIn][((i / (cases / huge_per_run).max(1)) % 3) as usize];
+                let mut gp = plan_ref.gprof;
+                gp.hostile_calls = false;
+                gp.types = 0;
+                let mut gs = gen::random_graph_of(&mut rng, fam, n, &gp);
+                if rng.chance(1, 2) {
+                    for _ in 0..8 {
+                        let f = rng.below(gs.n);
+                        if rng.chance(1, 2) {
+                            gs.writes[f] |= 1;
+                        } else {
+                            gs.reads[f] |= 1;
+                        }
+                    }
+                }
+                gs
             } else {
                 gen::wide_graph(&mut rng, n)
             }
+        } else if many_types {
+            // more distinct TypeIds in one graph (up to 256, twins included) than fit in any
+            // machine-word bit mask
+            let fam = *rng.pick(&[Family::SparseEr, Family::Isolated, Family::Chain, Family::Layered]);
+            let n = rng.range(40, 90);
+            let mut gp = plan_ref.gprof;
+            gp.hostile_calls = false;
+            gp.types = rng.range(70, 128);
+            gp.max_access = 4;
+            st.count("graphs_with_more_than_128_type_ids_on_offer");
+            gen::random_graph_of(&mut rng, fam, n, &gp)
         } else if mid {
             let fam = *rng.pick(&[Family::Isolated, Family::FanOut, Family::FanIn, Family::Layered, Family::SparseEr]);
             let n = rng.range(17, 48);
@@ -652,7 +710,59 @@ pub fn run(opts: &Opts, cfg_b: bool) -> Option<Stats> {
             rs.batch = true;
             rs.spurious = 0;
             rs.greedy = rs.api.is_stream() && rng.chance(2, 3);
-            if rs.fail.len() > 3 && !rng.chance(1, 3) {
+            if huge && prop == "C07" && !(rs.api.is_try() && rs.api.is_concurrent_call()) {
+                let mut rp = plan_ref.rprof.clone();
+                rp.apis.retain(|a| a.is_try() && a.is_concurrent_call());
+                if !rp.apis.is_empty() {
+                    rs = gen::random_run(&mut rng, n, &rp, cfg_b);
+                }
+            }
+            if huge {
+                // deterministic and cheap: everything completes at once; small limits pile the
+                // ready functions up behind the scheduler; failures: none / every function (more
+                // errors in one call than any fixed-size buffer) / the first function started
+                rs.modes = vec![Mode::Ready; n];
+                if rs.api.is_concurrent_call() {
+                    rs.limit = *rng.pick(&[Some(1), None, Some(8)]);
+                }
+                if rs.api.is_try() {
+                    // C07 is about the errors (every function fails two times in three), C09 about
+                    // the outcome after an early end (the first function fails two times in three)
+                    let pickf = match prop {
+                        "C07" => [1, 1, 2, 0][rng.below(4)],
+                        "C09" => [2, 2, 1, 0][rng.below(4)],
+                        _ => rng.below(3),
+                    };
+                    match pickf {
+                        0 => rs.fail.clear(),
+                        1 => {
+                            // as many failures in one call as possible: run in the direction
+                            // in which the star's many functions are not behind a single one
+                            let out_star = !gs.calls.is_empty() && gs.calls.iter().all(|c| c.0 == gs.calls[0].0);
+                            let in_star = !gs.calls.is_empty() && gs.calls.iter().all(|c| c.1 == gs.calls[0].1);
+                            if rs.api.has_opts() {
+                                if out_star {
+                                    rs.reverse = true;
+                                } else if in_star {
+                                    rs.reverse = false;
+                                }
+                            }
+                            let hub: Option<u32> = if out_star && !rs.reverse {
+                                Some(gs.calls[0].0)
+                            } else if in_star && rs.reverse {
+                                Some(gs.calls[0].1)
+                            } else {
+                                None
+                            };
+                            rs.fail = (0..n as u32).filter(|f| Some(*f) != hub).collect();
+                        }
+                        _ => {
+                            let preds = sub_preds_roots(&gs, rs.reverse);
+                            rs.fail = preds.into_iter().take(1).collect();
+                        }
+                    }
+                }
+            } else if rs.fail.len() > 3 && !rng.chance(1, 3) {
                 rs.fail.truncate(3);
             }
             st.count("wide_graph_runs");
@@ -668,6 +778,9 @@ pub fn run(opts: &Opts, cfg_b: bool) -> Option<Stats> {
         };
         let mut tape = Tape::random(mix(seed ^ 0x5eed, i));
         let t = exec_case(st, &mut sub, &rs, &mut tape, check, slot);
+        if huge && std::env::var("FGV_HUGE_DEBUG").is_ok() {
+            eprintln!("HUGE n={} calls={} api={:?} rev={} limit={:?} fail={} intr={:?} term={:?} events={}", n, sub.gs.calls.len(), rs.api, rs.reverse, rs.limit, rs.fail.len(), rs.intr, t.term, t.log.len());
+        }
         observe(prop, st, &sub, &rs, &t);
         if prop == "C10" {
             c10_limit_blocks(st, &mut sub, &rs, &tape, &t, mix(seed, i));
@@ -789,6 +902,31 @@ pub fn run(opts: &Opts, cfg_b: bool) -> Option<Stats> {
             }
         });
         total.merge(rc);
+    }
+    // ---- phase 5 (C08 only): consecutive calls sharing ONE InterruptibilityState via reborrow() ----
+    #[cfg(feature = "b")]
+    if prop == "C08" && cfg_b {
+        let scases = ((if opts.tier == Tier::Quick { 30_000 } else { 600_000 }) as f64 * opts.scale) as u64;
+        let gprof = plan_ref.gprof;
+        let ss = par_for(opts.jobs, scases, 64, Some(deadline), |st: &mut Stats, i: u64, _slot: &Slot| {
+            let mut rng = Rng::new(mix(seed ^ 0x5a5e, i));
+            let mut gp = gprof;
+            gp.max_n = gp.max_n.min(9);
+            gp.hostile_calls = false;
+            let gs = gen::random_graph(&mut rng, &gp);
+            let (out, made) = crate::sharedstate::shared_state_case(&gs, mix(seed, i));
+            st.evaluations += 1;
+            st.add("shared_state.calls", made);
+            st.add("events", made);
+            st.count("shared_state.sequences");
+            if gs.n >= 2 && made >= 2 {
+                st.distinct_insert(crate::runner::hash_of(&(crate::runner::hash_of(&gs), i)));
+            }
+            for v in &out {
+                st.violation(v, format!("g={}|shared_state_seed={}", gs.encode(), mix(seed, i)), String::new());
+            }
+        });
+        total.merge(ss);
     }
     Some(total)
 }
